@@ -860,6 +860,28 @@ val zoom_factor : z -> z -> q
 
 val zoom1 : z -> z -> q list -> z -> q list
 
+val cooc_pairs : arr -> z list -> (z * z) list
+
+val cooc : arr -> z list -> z -> z list
+
+val cooc_sym : arr -> z list -> z -> z list
+
+val roll_right : z -> z -> z
+
+val lbp_map_go : nat -> z -> z -> z -> z
+
+val lbp_map : z -> z -> z
+
+val prefix_row : z -> z list -> z list
+
+val next_row : z list -> z list -> z -> z -> z list
+
+val integral_go : z list -> z list list -> z list list
+
+val integral : z list list -> z list list
+
+val moments : arr -> z -> z -> z -> z -> z
+
 val gbernsen_px : q -> q -> q -> q -> q -> bool
 
 val soft_threshold_px : q -> q -> q
